@@ -206,6 +206,7 @@ def c12(nsubs, nev, mode, preempt, timeout=1800):
     if mode & 1: acts.append("Complete")
     if mode & 2: acts.append("Done")
     if mode & 4: acts.append("subscriber 0 unsubscribes at a symbolic point")
+    if mode & 8: acts.append("subscriber 0 (the trigger's creator) disconnects: its request context is cancelled at a symbolic point")
     return spec("H-C12[%d,%d,%d|p%d]" % (nsubs, nev, mode, preempt), "./pkg/engine/resolve", C12H, "VerifC12Delivery", [nsubs, nev, mode],
                 "real Resolver subscription machinery (AsyncResolveGraphQLSubscription, trigger registry, subscriptionUpdater, executeSubscriptionUpdate, removal paths) with a stub source and recording writers; %d subscriber(s) on one trigger, %d event(s), then %s; every interleaving at visible operations with at most %d preemptive switches" % (nsubs, nev, ", ".join(acts) or "nothing", preempt),
                 ["done"], timeout=timeout, preempt=preempt)
@@ -217,7 +218,7 @@ PROPS["C12"] = dict(
     design_ref="DESIGN.md §4 C12",
     assumptions=["A-DRF", "time.AfterFunc timers never fire (the subscription fetch timeout is outside)"],
     stubs=["SubscriptionDataSource, SubscriptionResponseWriter, Reporter, AsyncErrorWriter: harness stubs", "sync/atomic/channels/context primitives modelled by the engine"],
-    quick=[c12(1, 2, 3, 2), c12(1, 1, 7, 2), c12(1, 2, 5, 2)],
+    quick=[c12(1, 2, 3, 2), c12(1, 1, 7, 2), c12(1, 2, 5, 2), c12(2, 1, 11, 1)],
     thorough=[c12(2, 1, 3, 2, 3000), c12(1, 2, 7, 3, 3000)],
 )
 
